@@ -63,7 +63,7 @@ func generate(prop, tier string, seed uint64, run int) *Scenario {
 	case "C01":
 		return genMix(prop, seed, run, mixOpts{lagfree: 0.3, apiChurn: 0.12, spellings: pick < 25, shapes: allShapes, overflow: 0.12, maxOps: 36, watchFiles: 0.3, worldTasks: 3, withOps: 0.0, burst: 0.04, bigBurst: tier == "thorough"})
 	case "C02":
-		return genMix(prop, seed, run, mixOpts{lagfree: 0.25, apiChurn: 0.3, shapes: allShapes, overflow: 0.05, maxOps: 36, watchFiles: 0.4, worldTasks: 2, twoClients: 0.35})
+		return genMix(prop, seed, run, mixOpts{lagfree: 0.25, apiChurn: 0.3, spellings: pick < 25, shapes: allShapes, overflow: 0.05, maxOps: 36, watchFiles: 0.4, worldTasks: 2, twoClients: 0.35})
 	case "C03":
 		return genMix(prop, seed, run, mixOpts{lagfree: 0.2, apiChurn: 0.05, shapes: []int{0, 1}, maxOps: 40, watchFiles: 0.4, worldTasks: 1, burst: 0.04, overflow: 0.15})
 	case "C08":
@@ -95,6 +95,10 @@ func generate(prop, tier string, seed uint64, run int) *Scenario {
 	case "C07":
 		return genConc(prop, seed, run, tier)
 	case "C09":
+		if pick >= 90 {
+			// watched files next to their watched parent under all kinds of spellings ("." and bare names among them)
+			return genMix(prop, seed, run, mixOpts{lagfree: 0.5, apiChurn: 0.2, spellings: true, shapes: []int{0, 1}, maxOps: 24, watchFiles: 0.7, worldTasks: 1})
+		}
 		return genLifecycle(prop, seed, run, tier, 0, 0.12)
 	case "C10":
 		if pick < 70 {
